@@ -11,6 +11,7 @@ import (
 	"servitor/jtp"
 	"servitor/pub"
 	"strings"
+	"time"
 )
 
 func collectAllStrings(v any, out map[string]bool) {
@@ -68,6 +69,14 @@ func annotateDocs(op Op) {
 		}
 	}
 	op["has_relative_refs"] = relative
+	/* oracle: time.Parse(RFC3339) of every (scrubbed) string, as UnixNano */
+	times := []any{}
+	for str := range strs {
+		if t, err := time.Parse(time.RFC3339, str); err == nil {
+			times = append(times, []any{str, fmt.Sprint(t.UnixNano())})
+		}
+	}
+	op["timetable"] = times
 }
 
 func dumpList(items []pub.Tangible) []any {
